@@ -146,14 +146,20 @@ func (s *SpecValidator) Validate(data interface{}) (*Result, *Result) {
 		return errs, warnings // no point in continuing
 	}
 
+	// defaults and examples are values judged by their own schema: the swagger-only rules about
+	// the shape of a schema (items requires type: array, an array requires items) do not apply to them
+	valueOptions := *s.schemaOptions
+	valueOptions.EnableObjectArrayTypeCheck = false
+	valueOptions.EnableArrayMustHaveItemsCheck = false
+
 	// Values provided as default MUST validate their schema
-	df := &defaultValidator{SpecValidator: s, schemaOptions: s.schemaOptions}
+	df := &defaultValidator{SpecValidator: s, schemaOptions: &valueOptions}
 	errs.Merge(df.Validate())
 
 	// Values provided as examples MUST validate their schema
 	// Value provided as examples in a response without schema generate a warning
 	// Known limitations: examples in responses for mime type not application/json are ignored (warning)
-	ex := &exampleValidator{SpecValidator: s, schemaOptions: s.schemaOptions}
+	ex := &exampleValidator{SpecValidator: s, schemaOptions: &valueOptions}
 	errs.Merge(ex.Validate())
 
 	errs.Merge(s.validateNonEmptyPathParamNames())
